@@ -179,6 +179,13 @@ def positions(e):
     out.append(("print-using-ucall", ['PRINT USING "#"; ' + tn], {"k": "need", "e": fnn, "kind": "any"}))
     out.append(("builtin-arg-ucall", ["PRINT LEFT$(" + ts + ", " + tn + ")"], {"k": "need", "e": bcall("LEFT$", fns, fnn), "kind": "any"}))
     out.append(("select-subject", ["SELECT CASE " + t, "CASE ELSE", "PRINT 1", "END SELECT"], {"k": "need", "e": e, "kind": "top"}))
+    # a CASE compares the subject with its own value: the subject must be a number or a string (a record compared with itself)
+    out.append(("select-subject-case", ["SELECT CASE " + t, "CASE " + t, "PRINT 1", "CASE ELSE", "PRINT 2", "END SELECT"], {"k": "caseof", "subj": e, "test": e}))
+    out.append(("select-subject-is", ["SELECT CASE " + t, "CASE IS > " + t, "PRINT 1", "END SELECT"], {"k": "caseof", "subj": e, "test": e}))
+    if e["k"] == "var" and "." not in t:
+        # the counter of a FOR loop is a numeric variable (a plain one: a member of a record is refused as "variable required")
+        out.append(("for-counter", ["FOR " + t + " = 1 TO 2", "NEXT"], {"k": "need", "e": e, "kind": "n", "lvalue": True}))
+        out.append(("for-counter-next", ["FOR " + t + " = 1 TO 2", "NEXT " + t], {"k": "need", "e": e, "kind": "n", "lvalue": True}))
     out.append(("sub-arg-num", ["SN (" + t + ")"], {"k": "need", "e": ucall("FD#", ["n"], "n", par(e)), "kind": "any"}))
     # the argument lists of built-in STATEMENTS, directly and inside built-in functions nested there
     out.append(("stmt-locate", ["LOCATE 1, " + t], {"k": "need", "e": e, "kind": "n"}))
